@@ -385,7 +385,7 @@ func init() {
 	Register(&Check{
 		ID:    "C08",
 		Level: "exploration",
-		Rule: "a real directory tree (public and secret files, symlinks file->file, dir->dir, chains of two, dangling, loop, from the secret into the public directory, a FIFO, a directory, a device) and 25 requested paths (one behind a directory name that ends in a line break) (direct, through every symlink kind, " +
+		Rule: "24 generated JSON configuration files x 7 (configuration key, login name) pairs that differ in letter case or not, loaded by config.Setup; a real directory tree (public and secret files, symlinks file->file, dir->dir, chains of two, dangling, loop, from the secret into the public directory, a FIFO, a directory, a device) and 25 requested paths (one behind a directory name that ends in a line break) (direct, through every symlink kind, " +
 			"with '..', '.', '//', relative to the working directory, non-existent) + 5 globs; all ordered rule lists of length <=3 (quick) / <=4 (thorough) over 13 rules (allow, '!' deny, bare rules containing ':' via POSIX classes, Perl classes and flag groups, 'readfiles:' typed, a foreign type), " +
 			"as default rules and as per-user override; oracle A: HasFilePermission == reference (own resolution table of the layout, regular-file test, last matching readfiles rule wins, default deny) in both directions; oracle B (all lists of length <=2/<=3): " +
 			"a cat command through a real server session (plain, and with the client-settable options serverless/plain/quiet in the command word) delivers exactly the content of the allowed files and nothing of the denied ones; plus 24 JSON configuration files loaded through the real start-up path (Default list absent/empty/two lists x the user's own entry absent/[]/null/three lists, next to another user's generous entry): the verdict for all 25 paths follows the list that applies to the user (the own entry whenever one exists, also an empty one); non-trivial = the request resolves to a regular file",
